@@ -260,6 +260,8 @@ func runC06(c *Ctx) {
 		// ... and everything that depended on a disconnected coinbase leaves the spendable set with it: the outpoints whose
 		// spenders the rollback removes are recorded with the index of the credit at hand
 		checkLoopCarriedStructs(c, "C06-R1", []string{"rollback", "updateMinedBalance"})
+		// "once published, no later one reuses its inputs": whatever the wallet creates is recorded
+		checkEveryRelevantTxIsRecorded(c, "C06-R1")
 		// "not leased" is read from the lease bucket: a lease ends only by its owner, its expiry or a confirmed spend
 		// (C12-R5's rules) — not when an unconfirmed spend is recorded, which can be forgotten again
 		c.Borrow(runC12, "C12-R5", "C06-R1", func(k string) bool {
